@@ -145,6 +145,10 @@ EndedOnceP(gAfter, open) == ~gAfter.inx => open = 0
 \* nothing becomes durable that was never acknowledged: what a fresh handle would read for a key is a value that has at some
 \* point been the acknowledged one (the writes of an explicit transaction count from its successful Stop only)
 NoUnackedDurableP(gAfter, durable) == \A k \in Keys : durable[k] \in gAfter.ever[k]
+\* a Stop that reports success for an explicit transaction with acknowledged writes has sent a COMMIT: success without one
+\* (the library rolled the transaction back itself after a failed statement, nothing is open) acknowledges writes that are gone
+StopAcksByCommitP(g, op, res, log) ==
+  (op.op = "stop" /\ res = "ok" /\ g.inx /\ \E k \in Keys : g.pend[k] # 0) => \E i \in DOMAIN log : log[i] = "commit"
 NotEndedTwiceP(log) == \A i \in DOMAIN log : log[i] \notin {"REFUSED:commit", "REFUSED:rollback", "REFUSED:exec", "REFUSED:query"}
 \* explicit transaction: Start / Stop / Abort themselves behave (fault-free)
 MultiP(g, op, res, log) ==
